@@ -142,15 +142,21 @@ class FnView:
         self.decl = tu.node(f['id'])
         self._body = None
         self._mut = None
+        self._mut_sub = {}
+        self._rest = ()        # the statements that follow the current one in its compound statement (scope of a local declared here)
 
     # ---- which locals are written after their declaration
-    def _mutated(self):
-        if self._mut is not None:
+    def _mutated(self, sub=None):
+        """roots (declaration ids, 'this') of the objects written in the body - or, with sub, in that subtree only"""
+        if sub is None and self._mut is not None:
             return self._mut
+        if sub is not None and sub.get('id') is not None and sub.get('id') in self._mut_sub:
+            return self._mut_sub[sub.get('id')]
         tu = self.tu
         mut = set()
-        self._byref_ids = {}
-        body = tu.body(self.f)
+        if sub is None:
+            self._byref_ids = {}
+        body = tu.body(self.f) if sub is None else sub
 
         def root_var(n):
             n = self.strip(n)
@@ -217,12 +223,14 @@ class FnView:
                             mut.add(('arg', rv))
                             cn = self.strip(ks[0])
                             cname = (cn.get('name') or cn.get('member') or cn.get('referencedDecl', {}).get('name')) if cn else None
-                            self._byref_ids.setdefault(rv, set()).add(cname or '?')
+                            if sub is None:
+                                self._byref_ids.setdefault(rv, set()).add(cname or '?')
         mut.discard(None)
         # ('arg', id): only counts for locals that are not const-qualified
         constvars = set()
-        if body is not None:
-            for n in tu.walk(body):
+        whole = tu.body(self.f)
+        if whole is not None:
+            for n in tu.walk(whole):
                 if n.get('kind') == 'VarDecl' and tclean_const((n.get('type') or {}).get('qualType')):
                     constvars.add(n.get('id'))
         for m in list(mut):
@@ -230,7 +238,10 @@ class FnView:
                 mut.discard(m)
                 if m[1] not in constvars:
                     mut.add(m[1])
-        self._mut = mut
+        if sub is None:
+            self._mut = mut
+        elif sub.get('id') is not None:
+            self._mut_sub[sub.get('id')] = mut
         return mut
 
     def strip(self, n):
@@ -465,7 +476,13 @@ class FnView:
         then holds the value of that moment and must stay a state variable instead of being replaced by its initialiser"""
         if init is None:
             return False
-        mut = self._mutated()
+        # only writes inside the scope of the local, after its declaration, matter: the statements that follow the declaration
+        # in its compound statement (a local of a loop body is initialised anew in every iteration)
+        mut = set()
+        for c in self._rest:
+            mut |= self._mutated(c)
+        if not mut:
+            return False
         constp = {p['id'] for p in self.f['params'] if (p.get('ct') or '').strip().startswith('const ')}
         for x in self.tu.walk(init):
             k = x.get('kind')
@@ -476,10 +493,8 @@ class FnView:
                     continue        # nothing is written through a const-qualified name
                 if rid in mut:
                     return True
-                if rid in self.localvars:
-                    return True
-            elif k == 'CXXThisExpr' and 'this' in mut:
-                return True
+            elif k == 'CXXThisExpr' and 'this' in mut and not (self.f.get('fty') or '').rstrip().endswith(' const'):
+                return True         # (in a const member function nothing is written through `this`)
         return False
 
     def is_assert(self, n):
@@ -503,8 +518,11 @@ class FnView:
             n = self.strip(n)
         k = n.get('kind')
         if k == 'CompoundStmt':
-            for c in tu.kids(n):
+            kids = tu.kids(n)
+            for j, c in enumerate(kids):
+                self._rest = kids[j + 1:]
                 out.extend(self.stmts(c))
+            self._rest = ()
             return out
         if k == 'NullStmt':
             return out
@@ -557,6 +575,7 @@ class FnView:
             # clang: init, condvar, cond, inc, body (missing parts are empty dicts)
             if len(inner) != 5:
                 return [('?', 'for statement')]
+            self._rest = (n,)      # a variable of the init statement lives as long as the loop runs
             ini = self.stmts(inner[0]) if inner[0].get('kind') else []
             cond = self.term(inner[2]) if inner[2].get('kind') else None
             inc = self.term(inner[3]) if inner[3].get('kind') else None
